@@ -155,6 +155,12 @@ def prove(ctx, prop_mods, extra_targets=("mlsmodel",), thorough_leanchecker=True
     obligations are discharged; fills ctx.cov.  A failure is reported by the caller after the
     failing-input search (ctx.proof_failure holds the reason)."""
     ctx.proof_failure = None
+    # the generated part of the model is regenerated from the /repo working tree on every run
+    from . import translate_all
+    tok, tout = translate_all.run(ctx)
+    ctx.cov["translator"] = tout.strip()[-300:]
+    if not tok:
+        ctx.proof_failure = {"stage": "translate", "log": tout[-1500:]}
     ok, out, dt = lake_build(list(prop_mods) + list(extra_targets))
     ctx.log(f"lake build {' '.join(prop_mods)}: {'ok' if ok else 'FAILED'} ({dt:.1f}s)")
     thms = []
@@ -205,7 +211,9 @@ def prove(ctx, prop_mods, extra_targets=("mlsmodel",), thorough_leanchecker=True
         "theorems": thms, "partial_theorems": [t for t in thms if t.endswith("_partial")],
         "axioms": {t: axioms.get(t) for t in thms}, "lean_build_s": round(dt, 1),
     })
-    if not ok:
+    if not tok:
+        pass
+    elif not ok:
         errs = [l for l in out.splitlines() if "error" in l][:12]
         ctx.proof_failure = {"stage": "lake build", "modules": list(prop_mods), "errors": errs, "tail": out[-1500:]}
     elif bad or discharged != len(thms):
